@@ -161,7 +161,11 @@ def h5_content(path, skip=('metadata',)):
                     out[name] = ('bytes', v.hex())
             else:
                 a = np.ascontiguousarray(v)
-                if np.issubdtype(a.dtype, np.integer):
+                if a.dtype == object:
+                    # variable-length strings: compare the strings, not the object pointers
+                    flat = [x.decode('utf-8') if isinstance(x, bytes) else str(x) for x in a.ravel().tolist()]
+                    out[name] = ('str', list(a.shape), json.dumps(flat))
+                elif np.issubdtype(a.dtype, np.integer):
                     # integer datasets are compared by value: the storage width chosen for an index
                     # array (uint8 ... int64) is not part of the result
                     a = a.astype(np.int64)
